@@ -1,6 +1,7 @@
 """Self-tests of the simulator: determinism, storage-stub fidelity, sensitivity (mutants), grammar."""
 import json
 import os
+import posixpath
 import shutil
 import subprocess
 import sys
@@ -179,10 +180,77 @@ def cmd_simfs(a):
                 print("   dirs real-sim=%s sim-real=%s" % (sorted(set(real["dirs"]) - set(sim["dirs"])), sorted(set(sim["dirs"]) - set(real["dirs"]))))
                 print("   errors real=%s sim=%s" % (real_err, sim_err))
             shutil.rmtree(root)
+        bad += _tmp_scenarios(scratch)
     finally:
         shutil.rmtree(scratch, ignore_errors=True)
     print("selftest-simfs: %d worlds on both file systems, %d mismatches" % (done, bad))
     return 2 if bad else 0
+
+
+def _tmp_scenario(tmpdir, target, early):
+    """Write through a named temporary file and move it into place (before or after it is closed)."""
+    import tempfile as tf
+    with tf.NamedTemporaryFile("w", prefix="nc-", suffix=".tmp", delete=False, dir=tmpdir) as t:
+        t.write("0123456789abcde\n" * 1200)
+        name = t.name
+        if early:
+            shutil.move(name, os.path.join(target, "moved.txt"))
+    if not early:
+        shutil.move(name, os.path.join(target, "moved.txt"))
+    fd, p = tf.mkstemp(dir=tmpdir)
+    os.write(fd, b"abc")
+    os.close(fd)
+    try:
+        os.replace(p, os.path.join(target, "replaced.txt"))
+        r = "ok"
+    except OSError as e:
+        r = errno_name(e)
+        os.unlink(p)
+    return r
+
+
+def errno_name(e):
+    import errno
+    return errno.errorcode.get(e.errno, str(e.errno))
+
+
+def _tmp_scenarios(scratch):
+    """The simulated temporary directory against a real one: same file system, and (when this machine has /dev/shm on
+    another device than the scratch area) another file system, where rename fails with EXDEV."""
+    from .simfs import SimFS, SYSTMP
+    bad = 0
+    real_same = os.path.join(scratch, "tmp-same")
+    os.makedirs(real_same)
+    cases = [(real_same, True)]
+    if os.path.isdir("/dev/shm") and os.stat("/dev/shm").st_dev != os.stat(scratch).st_dev:
+        other = tempfile.mkdtemp(prefix="nc-simfs-", dir="/dev/shm")
+        cases.append((other, False))
+    try:
+        for real_tmp, same in cases:
+            for early in (False, True):
+                target = os.path.join(scratch, "tgt-%s-%s" % (same, early))
+                os.makedirs(target)
+                r_real = _tmp_scenario(real_tmp, target, early)
+                real = {f: open(os.path.join(target, f), "rb").read() for f in sorted(os.listdir(target))}
+                left_real = sorted(os.listdir(real_tmp))
+                fs = SimFS({"dirs": ["tgt"], "files": {}}, knobs={"tmp_same_fs": same})
+                fs.new_process({"tmp_same_fs": same}, [])
+                with fs:
+                    r_sim = _tmp_scenario("/simfs/" + SYSTMP, "/simfs/tgt", early)
+                sim = {posixpath.basename(k): v for k, v in fs.snapshot()["files"].items()}
+                left_sim = sorted(posixpath.basename(q) for q in fs.files if fs._in_tmp(q))
+                if r_real != r_sim or real != sim or len(left_real) != len(left_sim):
+                    bad += 1
+                    print("SIMFS-MISMATCH temporary-file scenario same_fs=%s early=%s: real %s %s left=%s, sim %s %s left=%s" % (
+                        same, early, r_real, {k: len(v) for k, v in real.items()}, left_real, r_sim, {k: len(v) for k, v in sim.items()}, left_sim))
+                for f in os.listdir(real_tmp):
+                    os.unlink(os.path.join(real_tmp, f))
+        print("selftest-simfs: temporary-file scenarios on %d real temporary directories (%s)" % (
+            len(cases), ", ".join("same file system" if sm else "other file system" for _, sm in cases)))
+    finally:
+        for real_tmp, same in cases:
+            shutil.rmtree(real_tmp, ignore_errors=True)
+    return bad
 
 
 # ---------------------------------------------------------------------------
